@@ -66,6 +66,8 @@ pub struct Model {
     /// pure mode only: addresses a rejected commit may or may not have published (the data is
     /// valid either way); the first observation of such an address settles it
     pub maybe_content: BTreeMap<(Algo, String), Arc<Vec<u8>>>,
+    /// link targets the user deleted (and no later step re-created)
+    pub removed_targets: std::collections::BTreeSet<usize>,
 }
 
 pub fn entry_matches(e: &Entry, key: &str, m: &MetaNorm) -> Result<(), String> {
@@ -129,6 +131,7 @@ impl Model {
             tmp_elsewhere: false,
             pure: false,
             maybe_content: BTreeMap::new(),
+            removed_targets: Default::default(),
         }
     }
 
@@ -235,6 +238,26 @@ impl Model {
 
     /// Judges one executed step and advances the model. `Err` describes the violation.
     pub fn step(&mut self, ctx: &Ctx, step: &Step, out: &Out, t0: u128, t1: u128) -> Result<(), String> {
+        if let Op::LinkTo(l) = &step.op {
+            // (the harness re-creates the target file before every link call)
+            self.removed_targets.remove(&l.target);
+        }
+        self.step_inner(ctx, step, out, t0, t1)?;
+        if !self.pure {
+            for t in &self.removed_targets {
+                if std::fs::symlink_metadata(ctx.target_path(*t)).is_ok() {
+                    return Err(format!(
+                        "after {}: the file {} — a link target outside the cache which its owner had deleted — exists again",
+                        step.op.name(),
+                        ctx.target_path(*t).display()
+                    ));
+                }
+            }
+        }
+        Ok(())
+    }
+
+    fn step_inner(&mut self, ctx: &Ctx, step: &Step, out: &Out, t0: u128, t1: u128) -> Result<(), String> {
         if let Out::Panic(m) = out {
             return Err(format!("{} panicked: {m}", step.op.name()));
         }
@@ -277,6 +300,18 @@ impl Model {
         match &step.op {
             Op::TmpElsewhere => {
                 self.tmp_elsewhere = true;
+                Ok(())
+            }
+            Op::RemoveTarget { target } => {
+                self.removed_targets.insert(*target);
+                // every link reads what its target holds now
+                let linked: Vec<(Algo, String)> =
+                    self.content.iter().filter(|(_, c)| matches!(c, CState::Data { symlink: true, .. } | CState::Dangling)).map(|(a, _)| a.clone()).collect();
+                if !self.pure {
+                    for a in linked {
+                        self.adopt_content(ctx, &a);
+                    }
+                }
                 Ok(())
             }
             Op::PlantRecord { key, .. } => {
